@@ -163,6 +163,13 @@ module Pos =
     | XO p -> XO (mul p y)
     | XH -> y
 
+  (** val size : positive -> positive **)
+
+  let rec size = function
+  | XI p0 -> succ (size p0)
+  | XO p0 -> succ (size p0)
+  | XH -> XH
+
   (** val compare_cont : comparison -> positive -> positive -> comparison **)
 
   let rec compare_cont r x y =
@@ -405,10 +412,25 @@ module Z =
           | _ -> ((opp (add q (Zpos XH))), (sub b r)))
        | Zneg b' -> let (q, r) = pos_div_eucl a' (Zpos b') in (q, (opp r)))
 
+  (** val div : z -> z -> z **)
+
+  let div a b =
+    let (q, _) = div_eucl a b in q
+
   (** val modulo : z -> z -> z **)
 
   let modulo a b =
     let (_, r) = div_eucl a b in r
+
+  (** val log2 : z -> z **)
+
+  let log2 = function
+  | Zpos p0 ->
+    (match p0 with
+     | XI p -> Zpos (Pos.size p)
+     | XO p -> Zpos (Pos.size p)
+     | XH -> Z0)
+  | _ -> Z0
  end
 
 (** val nth : nat -> 'a1 list -> 'a1 -> 'a1 **)
@@ -697,6 +719,25 @@ let expect_number ts =
                                    | Some p -> Ok p
                                    | None -> Err)
 
+(** val dec_aux : nat -> z -> z list -> z list **)
+
+let rec dec_aux fuel n0 acc =
+  match fuel with
+  | O -> acc
+  | S f ->
+    let acc' =
+      (Z.add (Zpos (XO (XO (XO (XO (XI XH))))))
+        (Z.modulo n0 (Zpos (XO (XI (XO XH)))))) :: acc
+    in
+    if Z.ltb n0 (Zpos (XO (XI (XO XH))))
+    then acc'
+    else dec_aux f (Z.div n0 (Zpos (XO (XI (XO XH))))) acc'
+
+(** val decimal : z -> z list **)
+
+let decimal n0 =
+  dec_aux (S (Z.to_nat (Z.log2 n0))) n0 []
+
 (** val align_up : z -> z -> z **)
 
 let align_up o al =
@@ -704,8 +745,8 @@ let align_up o al =
 
 (** val leaf_ok : leaf -> z -> z -> bool **)
 
-let leaf_ok l size group =
-  (&&) (Z.eqb l.l_size size)
+let leaf_ok l size0 group =
+  (&&) (Z.eqb l.l_size size0)
     ((||)
       ((||) (Z.eqb l.l_group group)
         (Z.eqb l.l_group (Zpos (XO (XO (XO (XI (XO (XO XH)))))))))
@@ -726,7 +767,8 @@ let rec chunk_loop et z0 pm group arrsz h o cnt sal =
   | [] -> NullDeref
   | p :: rest ->
     let (l, fo) = p in
-    let size = if is_native pm then native_size et z0 else standard_size et z0
+    let size0 =
+      if is_native pm then native_size et z0 else standard_size et z0
     in
     let al = alignment et in
     if (&&) (Z.eqb pm (Zpos (XO (XO (XO (XO (XO (XO XH)))))))) (Z.eqb al Z0)
@@ -742,15 +784,15 @@ let rec chunk_loop et z0 pm group arrsz h o cnt sal =
            then padding et
            else sal
          in
-         if negb (leaf_ok l size group)
+         if negb (leaf_ok l size0 group)
          then Err
          else if negb (Z.eqb o1 fo)
               then Err
               else let o2 =
-                     Z.add (Z.add o1 size)
+                     Z.add (Z.add o1 size0)
                        (if Z.eqb arrsz Z0
                         then Z0
-                        else Z.mul (Z.sub arrsz (Zpos XH)) size)
+                        else Z.mul (Z.sub arrsz (Zpos XH)) size0)
                    in
                    let cnt1 =
                      if Z.eqb cnt Z0
